@@ -20,6 +20,20 @@ def type_text(t):
     return t.express().lower() if not isinstance(t, smodel.Named) else t.name.lower()
 
 
+def elem_text(fam, t):
+    """the element type as AggrElemTypeDescriptor() names it: that function looks through renamings (NonRefTypeDescriptor), so LIST OF hue with
+    TYPE hue = color (an enumeration, select or aggregate) is answered with color; an unnamed inner aggregate has no name"""
+    if isinstance(t, smodel.Aggr):
+        return ''
+    while isinstance(t, smodel.Named):
+        td = fam.tmap()[0].get(t.name)
+        if td is not None and isinstance(td.body, smodel.Named) and fam.resolve(td.body)[0] in ('enum', 'select', 'aggr'):
+            t = td.body
+        else:
+            break
+    return type_text(t)
+
+
 def aggr_struct(fam, t):
     """the structure dictdump prints for an aggregate type (S lines, struct=)"""
     if isinstance(t, smodel.Named):
@@ -28,7 +42,7 @@ def aggr_struct(fam, t):
             return aggr_struct(fam, td.body)
         if td is not None and isinstance(td.body, smodel.Named) and fam.resolve(td.body)[0] == 'aggr':
             return aggr_struct(fam, td.body)          # TYPE l2 = l: the structure of the aggregate it renames
-        return '/' + t.name.lower()
+        return '/' + elem_text(fam, t)
     if isinstance(t, smodel.Aggr):
         return '%s[%s:%s]u%do%d' % (t.kind.lower(), t.lo if t.lo is not None else 0, t.hi if t.hi is not None else UNB, 1 if t.unique else 0,
                                     1 if (t.optional and t.kind == 'ARRAY') else 0) + aggr_struct(fam, t.elem)
@@ -56,7 +70,8 @@ def expected(fam):
             d = {'select': sorted(b[1])}
         elif isinstance(b, smodel.Aggr):
             d = {'aggr': b.kind.lower(), 'b1': b.lo if b.lo is not None else 0, 'b2': b.hi if b.hi is not None else UNB, 'uniq': 1 if b.unique else 0,
-                 'optl': 1 if b.optional else 0, 'elem': type_text(b.elem)}
+                 'optl': 1 if b.optional else 0, 'elem': elem_text(fam, b.elem)}
+            # (an inner dimension has no name of its own; its shape is compared where an attribute has this type: the S lines)
         elif isinstance(b, smodel.Simple):
             d = {'ref': b.name.lower(), 'fund': PRIM[b.name]}
             if b.width is not None:
@@ -68,7 +83,7 @@ def expected(fam):
                 # a renamed aggregate type: the structure of the aggregate it renames
                 ag = r[1]
                 d.update({'aggr': ag.kind.lower(), 'b1': ag.lo if ag.lo is not None else 0, 'b2': ag.hi if ag.hi is not None else UNB, 'uniq': 1 if ag.unique else 0,
-                          'optl': 1 if ag.optional else 0, 'elem': type_text(ag.elem), 'renamed': True})
+                          'optl': 1 if ag.optional else 0, 'elem': elem_text(fam, ag.elem), 'renamed': True})
             if r[0] == 'enum':
                 d['enum'] = [x.lower() for x in r[1]]
             if r[0] == 'select':
@@ -275,7 +290,7 @@ def variants(fam):
 
 
 def programs(tier):
-    progs = [smodel.family_K('fam_k', pairs=[('inte', 'stri'), ('ref', 'list_int')], renamed=True), smodel.family_I('fam_i'), family_V(), family_A(), family_R()]
+    progs = [smodel.family_K('fam_k', pairs=[('inte', 'stri'), ('ref', 'list_int')], renamed=True), smodel.family_I('fam_i'), family_V(), family_A(), family_R()] + family_X()
     progs += family_D(4, 'fam_d4')
     # of the five-entity graphs the quick tier keeps those where an entity with several supertypes is itself a supertype, listed second or
     # later, of another entity with several supertypes (multiple inheritance through multiple inheritance)
@@ -286,6 +301,28 @@ def programs(tier):
         progs.append(smodel.family_K('fam_kr', pairs=[], renamed=True, only=['enum2', 'seldef2', 'inte']))
         progs += family_D(5, 'fam_d5')
     return progs
+
+
+def family_X():
+    """shapes kept in schemas of their own, because one that does not build would hide every other: named two-dimensional aggregates, named aggregates of
+    selects, a select with two aggregate members of the same kind"""
+    S, N, A, T, E, At = smodel.Simple, smodel.Named, smodel.Aggr, smodel.TypeDecl, smodel.Entity, smodel.Attr
+    tg = lambda: E('tg', [At('v', S('INTEGER'))])
+    tg2 = lambda: E('tg2', [At('w', S('STRING'))])
+    return [
+        smodel.Schema('fam_x2d', [T('grid', A('LIST', 0, None, A('LIST', 0, None, S('INTEGER')))), T('cells', A('ARRAY', 1, 2, A('ARRAY', 1, 2, S('REAL')))),
+                                  T('row', A('LIST', 0, None, S('INTEGER'))), T('rows', A('LIST', 0, None, N('row'))), T('refgrid', A('LIST', 0, None, A('SET', 0, None, N('tg'))))],
+                      [tg(), E('e_grid', [At('a', N('grid'))]), E('e_cells', [At('a', N('cells'))]), E('e_rows', [At('a', N('rows'))]), E('e_refgrid', [At('a', N('refgrid'))]),
+                       E('o_grid', [At('a', N('grid'), optional=True), At('b', S('INTEGER'))])]),
+        smodel.Schema('fam_xas', [T('dint', S('INTEGER')), T('dstr', S('STRING')), T('seldef', ('select', ['dint', 'dstr'])), T('selent', ('select', ['tg', 'tg2'])),
+                                  T('lsel', A('LIST', 0, None, N('selent'))), T('ssel', A('SET', 1, None, N('seldef'))),
+                                  T('color', ('enum', ['red', 'green'])), T('acol', A('LIST', 0, None, N('color'))), T('lcol', A('SET', 0, None, N('color'))), T('zcol', A('BAG', 0, None, N('color'))),
+                                  T('hue', N('color')), T('lhue', A('LIST', 0, None, N('hue')))],
+                      [tg(), tg2(), E('e_lsel', [At('a', N('lsel'))]), E('e_ssel', [At('a', N('ssel'))]), E('e_inl', [At('a', A('LIST', 0, None, N('selent')))]),
+                       E('e_acol', [At('a', N('acol'))]), E('e_lcol', [At('a', N('lcol'))]), E('e_zcol', [At('a', N('zcol'))]), E('e_lhue', [At('a', N('lhue'))])]),
+        smodel.Schema('x_select_of_two_aggregates_of_one_kind', [T('li', A('LIST', 0, None, S('INTEGER'))), T('lr', A('LIST', 0, None, S('REAL'))), T('sel2a', ('select', ['li', 'lr']))],
+                      [E('e_sel2a', [At('a', N('sel2a'))])]),
+    ]
 
 
 def family_R():
